@@ -257,6 +257,7 @@ def run(rep, facts, tier):
 
     # ------------------------------------------------------------ R20.5
     rule_20_5(rep, fx)
+    rule_20_6(rep, fx)
 
 
 def rule_20_5(rep, fx):
@@ -293,3 +294,44 @@ def rule_20_5(rep, fx):
                     ok = False
     rep.check(ok and n >= 1, 'R20.5', 'AsyncWaitForAcknowledgments::poll/state-restored-before-pending', '%d swap -> Pending path group(s), each stores a waiting state back' % n,
               'AsyncWaitForAcknowledgments::poll can return Pending with the placeholder state Done left in the future: the next poll completes with Ok(true) without any acknowledgment', b.where())
+
+
+def rule_20_6(rep, fx):
+    """What the asynchronous wait reports when it completes."""
+    rep.rule('R20.6', 'async result table: AsyncWaitForAcknowledgments::poll reports Ready(Ok(true)) only in state Done (the Writer had nothing to wait for) or on the completion token '
+                      '(inner stream Ready(Some(()))), and these two report exactly that; the ended stream (Ready(None): the Writer dropped the completion sender unanswered) reports '
+                      'Ok(false), never success')
+    bs = [x for x in fx.bodies if x.key.startswith('<dds::with_key::datawriter::AsyncWaitForAcknowledgments') and x.key.endswith('::poll')]
+    if len(bs) != 1:
+        raise CheckBroken('AsyncWaitForAcknowledgments::poll not found (%d)' % len(bs))
+    b = bs[0]
+    rep.analysed(b)
+    og = Origins(b, summaries=False)
+    P = Pos(b)
+    edges = list(switch_edges(b, fx, og))
+    done = [(s_, t_) for s_, t_, cond, lab in edges if lab == 'Done' and cond[0] == 'discr']
+    token = [(s_, t_) for s_, t_, cond, lab in edges if lab == 'Some' and cond[0] == 'discr' and term_has(cond, lambda x: x[0] == 'call' and x[1].endswith('poll_next'))]
+    ended = [(s_, t_) for s_, t_, cond, lab in edges if lab == 'None' and cond[0] == 'discr' and term_has(cond, lambda x: x[0] == 'call' and x[1].endswith('poll_next'))]
+    oks = []
+    for bb, si, st in b.statements():
+        if st['s'] == 'assign' and st['rv']['r'] == 'agg' and st['rv'].get('variant') == 'Ok' and st['rv']['ops'] and 'Result' in str(st['rv'].get('adt')):
+            v = og.of_operand(st['rv']['ops'][0], bb, si)
+            oks.append((bb, si, v))
+    trues = [(bb, si) for bb, si, v in oks if v[0] == 'const' and str(v[2]) in ('1', 'true', 'True')]
+    falses = [(bb, si) for bb, si, v in oks if v[0] == 'const' and str(v[2]) in ('0', 'false', 'False')]
+    other = [(bb, si) for bb, si, v in oks if v[0] != 'const']
+    ok = bool(done) and bool(token) and bool(ended) and not other and len(trues) >= 2
+    for o in trues:
+        ok = ok and P.every_path_passes(None, o, via_edges=done + token, from_entry=True)
+        ok = ok and not any(P.can_reach((t_, 0), o) for _s, t_ in ended)
+    # Done and the token lead to Ok(true), the ended stream to Ok(false), without passing another result
+    for es, goals, what in ((done, trues, 'Done'), (token, trues, 'token'), (ended, falses, 'ended stream')):
+        for s_, t_ in es:
+            others = [x for x in trues + falses if x not in goals]
+            if not any(P.can_reach((t_, 0), g, avoid_pos=others) or P.norm((t_, 0))[0] == g[0] for g in goals):
+                ok = False
+            if any(P.can_reach((t_, 0), x, avoid_pos=goals) for x in others) and what != 'Done':
+                ok = False
+    rep.check(ok, 'R20.6', 'AsyncWaitForAcknowledgments::poll/result-table', 'Done | token => Ok(true); ended stream => Ok(false)',
+              'the asynchronous wait does not report Ok(true) exactly for state Done and for the completion token, and Ok(false) for an ended completion stream '
+              '(Ok(true) sites: %d, Ok(false) sites: %d, computed: %d): success is reported without the acknowledgments, or completion is reported as failure' % (len(trues), len(falses), len(other)), b.where())
